@@ -4,7 +4,7 @@ use std::sync::{Arc, Mutex};
 
 pub type Trace = Arc<Mutex<Vec<usize>>>;
 
-pub enum Kind { Rnd, Sticky(u64), Guided(Vec<usize>), Withhold(usize), Inject { base: Vec<usize>, k: usize, task: usize } }
+pub enum Kind { Rnd, Sticky(u64), Guided(Vec<usize>), Withhold(usize), Inject { base: Vec<usize>, k: usize, task: usize }, Freeze { base: Vec<usize>, k: usize, dur: usize } }
 
 pub struct Sched { pub kind: Kind, pub seed: u64, rng: u64, started: bool, pub trace: Trace, pos: usize, injected_done: bool, pub diverged: Arc<Mutex<Option<usize>>> }
 
@@ -53,6 +53,21 @@ impl Scheduler for Sched {
                     let w = base.get(self.pos).copied(); self.pos += 1;
                     match w { Some(w) if fair.contains(&w) => w, _ => fair[(self.next() >> 11) as usize % fair.len()] }
                 }
+            }
+            Kind::Freeze { base, k, dur } => {
+                // follow the base schedule for k decisions; the task the base schedule would run at decision k is then held back
+                // for `dur` decisions (unless nothing else can run) while the others run fairly; afterwards random
+                let (k, dur) = (*k, *dur);
+                let c = cur.map(usize::from);
+                let fair: Vec<usize> = { let v: Vec<usize> = ids.iter().copied().filter(|x| !(yielding && Some(*x) == c)).collect(); if v.is_empty() { ids.clone() } else { v } };
+                if self.pos < k { let w = base.get(self.pos).copied(); self.pos += 1; match w { Some(w) if ids.contains(&w) => w, _ => usize::MAX } }
+                else if self.pos < k + dur {
+                    let frozen = base.get(k).copied().unwrap_or(usize::MAX);
+                    self.pos += 1;
+                    let others: Vec<usize> = fair.iter().copied().filter(|x| *x != frozen).collect();
+                    if others.is_empty() { self.pos = k + dur; fair[(self.next() >> 11) as usize % fair.len()] } else { others[(self.next() >> 11) as usize % others.len()] }
+                }
+                else { self.pos += 1; fair[(self.next() >> 11) as usize % fair.len()] }
             }
             Kind::Guided(list) => {
                 let want = list.get(self.pos).copied();
